@@ -215,6 +215,24 @@ pub fn check(hdr: &str, lines: &[String], trace: &[(String, Vec<String>)], mon: 
                     }
                 }
             }
+            "addmany" => {
+                let start: u16 = ws[2].parse().unwrap();
+                let count: u16 = ws[3].parse().unwrap();
+                let class: u8 = ws[4].parse().unwrap();
+                let ok = outs.iter().find_map(|o| o.strip_prefix("added ").map(|x| x.trim().parse::<u16>().unwrap())).unwrap_or(0);
+                if ok > 0 {
+                    any_point = true;
+                }
+                for i in 0..count {
+                    let idx = start + i;
+                    // a point that already existed keeps its configuration (add returns false)
+                    if ws[1] == "bin" {
+                        bin_pts.entry(idx).or_insert((class, 0x02));
+                    } else {
+                        an_pts.entry(idx).or_insert((class, vec![0x02, 0, 0, 0, 0]));
+                    }
+                }
+            }
             "txn" => {
                 let upd: Vec<&String> = outs.iter().filter(|o| o.starts_with("upd ")).collect();
                 for (item, res) in ws[1..].iter().zip(upd.iter()) {
